@@ -69,8 +69,8 @@ ACTIONS = ["CallStep", "Raise", "Assign", "AugAssign", "TupleAssign", "ExprStmt"
            "ForEnter", "ForNext", "Break", "Continue", "Return", "BlockEnd", "Exhaust"]
 QUICK_PROGRAMS = 70
 QUICK_VECTORS = 7
-THOROUGH_PROGRAMS = 1400
-THOROUGH_VECTORS = 12
+THOROUGH_PROGRAMS = 500
+THOROUGH_VECTORS = 10
 FUEL = 400                       # PySrc transitions per execution
 MAX64 = (1 << 63) - 1
 MIN64 = -(1 << 63)
